@@ -37,6 +37,8 @@ type Solver struct {
 	log     *os.File
 	errSeen string
 	buf     strings.Builder
+	lines   chan string
+	dead    bool
 }
 
 func NewSolver(kind string, timeoutMs int, logPath string) (*Solver, error) {
@@ -69,6 +71,17 @@ func NewSolver(kind string, timeoutMs int, logPath string) (*Solver, error) {
 	if logPath != "" {
 		s.log, _ = os.Create(logPath)
 	}
+	s.lines = make(chan string, 1024)
+	go func() {
+		for {
+			l, err := s.out.ReadString('\n')
+			if err != nil {
+				close(s.lines)
+				return
+			}
+			s.lines <- l
+		}
+	}()
 	s.send("(set-option :global-declarations true)")
 	if strings.HasPrefix(kind, "z3") {
 		s.send(fmt.Sprintf("(set-option :timeout %d)", timeoutMs))
@@ -91,6 +104,9 @@ func (s *Solver) Close() {
 }
 
 func (s *Solver) send(line string) {
+	if s.dead {
+		return
+	}
 	if s.log != nil {
 		s.log.WriteString(line + "\n")
 	}
@@ -98,10 +114,23 @@ func (s *Solver) send(line string) {
 }
 
 func (s *Solver) readLine() string {
-	l, err := s.out.ReadString('\n')
-	if err != nil {
-		s.errSeen = "solver died: " + err.Error()
+	if s.dead {
 		return "(error \"solver died\")"
+	}
+	var l string
+	select {
+	case x, ok := <-s.lines:
+		if !ok {
+			s.dead = true
+			s.errSeen = "solver died"
+			return "(error \"solver died\")"
+		}
+		l = x
+	case <-time.After(time.Duration(2*s.timeoutMs+20000) * time.Millisecond):
+		s.dead = true
+		s.errSeen = "solver hung (no answer within twice the query timeout); killed"
+		s.cmd.Process.Kill()
+		return "(error \"solver hung\")"
 	}
 	l = strings.TrimSpace(l)
 	if s.log != nil {
